@@ -9,7 +9,8 @@ use crate::{ensure, fail, selftest};
 use ruzstd::verif_hooks as hk;
 use serde_json::{json, Value};
 
-const STAGES: [&str; 12] = [
+const STAGES: [&str; 13] = [
+    "rle_mode_symbols",
     "ll_codes",
     "ml_codes",
     "of_codes_dense",
@@ -189,6 +190,42 @@ fn seq_count_parser_item(i: u64, ctx: &mut CaseCtx) -> CaseResult {
 }
 
 /// item = one 3-byte block header value
+/// RLE_Mode for a sequence table: the one byte that follows is a CODE and must be one the format
+/// defines for that table (literal lengths 0..=35, offsets 0..=31, match lengths 0..=52). Item =
+/// table * 256 + byte. A one-sequence block is decoded; "refused as a symbol" is told from every
+/// later failure (a huge offset with nothing to copy from fails when the sequence is executed).
+fn rle_symbol_item(v: u64, ctx: &mut CaseCtx) -> CaseResult {
+    let table = (v / 256) as usize;
+    let sym = (v % 256) as u8;
+    let mut syms = [0u8, 1, 0]; // ll, of, ml
+    syms[table] = sym;
+    let mut f = vec![0x28, 0xB5, 0x2F, 0xFD, 0x00, 0x00];
+    let mut body = vec![0x10, b'a', b'b', 0x01, 0x54, syms[0], syms[1], syms[2]];
+    body.extend_from_slice(&[0u8; 9]); // room for 31 + 16 + 16 extra bits
+    body.push(0x01); // end mark
+    let bh = ((body.len() as u32) << 3) | (2 << 1) | 1;
+    f.extend_from_slice(&bh.to_le_bytes()[..3]);
+    f.extend_from_slice(&body);
+    let mut dec = ruzstd::decoding::FrameDecoder::new();
+    let mut out = vec![0u8; 1 << 17];
+    let verdict = match dec.decode_all(&f, &mut out) {
+        Ok(_) => "decoded".to_string(),
+        Err(e) => format!("{e:?}"),
+    };
+    let refused_as_symbol = verdict.contains("MissingByteForRle") || verdict.contains("RleSymbol");
+    let max = [MAX_LL_CODE, MAX_OF_CODE, MAX_ML_CODE][table];
+    let name = ["literal-length", "offset", "match-length"][table];
+    if sym <= max {
+        ensure!(!refused_as_symbol, "rle_symbol_refused", "RLE_Mode with {name} code {sym} (legal: 0..={max}) is refused: {verdict}");
+        ctx.feat("rle_symbol:legal_accepted");
+    } else {
+        ensure!(verdict != "decoded", "rle_symbol_accepted", "RLE_Mode with {name} code {sym} (legal: 0..={max}) was decoded");
+        ctx.feat_if(refused_as_symbol, "rle_symbol:illegal_refused_as_symbol");
+    }
+    ctx.nontrivial = sym + 4 > max && sym <= max.saturating_add(4);
+    Ok(())
+}
+
 fn block_header_item(v: u64, ctx: &mut CaseCtx) -> CaseResult {
     let b = [(v & 255) as u8, (v >> 8) as u8, (v >> 16) as u8];
     let last = v & 1 == 1;
@@ -480,6 +517,7 @@ fn run_stage(eng: &Engine, stage: &str) -> bool {
         }
         "seq_count_writer" => eng.run_enumerated(stage, "every sequence count 1..=98047 through the compressor's writer", 98_047, 2048, seq_count_writer_item),
         "seq_count_parser" => eng.run_enumerated(stage, "every 1/2/3-byte sequence-count prefix (2^24 patterns, redundant ones skipped)", 1 << 24, 1 << 14, seq_count_parser_item),
+        "rle_mode_symbols" => eng.run_enumerated(stage, "RLE_Mode symbol byte: 3 tables x all 256 values", 3 * 256, 16, rle_symbol_item),
         "block_headers" => eng.run_enumerated(stage, "all 2^24 block headers", 1 << 24, 1 << 14, block_header_item),
         "block_header_writer" => eng.run_enumerated(stage, "block header writer: last x type x size 0..=131072", 131_073 * 3 * 2, 1 << 13, block_header_writer_item),
         "frame_headers" => eng.run_enumerated(stage, "all 256x256 (descriptor, window byte) pairs x 4 field fill patterns", 65_536 * 4, 1 << 11, frame_header_item),
@@ -568,6 +606,7 @@ pub fn replay(eng: &Engine, stage: &str, case: &Value) -> CaseResult {
         "of_codes_wide" => of_wide_item(i, &mut ctx, thorough, seed),
         "seq_count_writer" => seq_count_writer_item(i, &mut ctx),
         "seq_count_parser" => seq_count_parser_item(i, &mut ctx),
+        "rle_mode_symbols" => rle_symbol_item(i, &mut ctx),
         "block_headers" => block_header_item(i, &mut ctx),
         "block_header_writer" => block_header_writer_item(i, &mut ctx),
         "frame_headers" => frame_header_item(i, &mut ctx),
